@@ -458,14 +458,14 @@ class TDMProgram(Program):
                 return
             self.roll()
 
-        # store the number of shots in the unrolled circuit
-        self._unrolled_shots = shots
-
         if self.space_unrolled_circuit is not None:
             raise ValueError(
                 "Program is space-unrolled and cannot be unrolled. Must be rolled (by calling the"
                 "'roll()' method) before unrolling."
             )
+
+        # store the number of shots in the unrolled circuit
+        self._unrolled_shots = shots
 
         # a locked program is unlocked only while the unrolled circuit is being constructed
         _locked = self.locked
